@@ -270,3 +270,72 @@ pub fn yaml_value_to_json(v: &serde_yaml::Value) -> Result<serde_json::Value, St
         Y::Tagged(t) => yaml_value_to_json(&t.value)?,
     })
 }
+
+/// Structural facts about a loaded module set, computed through oal's public syntax API.
+/// They serve as preconditions of known findings and as histogram classes.
+pub fn structural_labels(mods: &ModuleSet) -> Vec<String> {
+    use oal_compiler::definition::Definition;
+    use oal_model::grammar::AbstractSyntaxNode;
+    use oal_syntax::atom::VariadicOperator;
+    use oal_syntax::parser as syn;
+    let mut out = std::collections::BTreeSet::new();
+    if mods.len() > 1 {
+        out.insert("multi-module");
+    }
+    for tree in mods.modules() {
+        for node in tree.root().descendants() {
+            if let Some(app) = syn::Application::cast(node) {
+                out.insert("application");
+                let var = app.lambda();
+                if let Some(Definition::External(ext)) = var.node().syntax().core_ref().definition() {
+                    let target = ext.node(mods);
+                    if target.tree().locator() != tree.locator() && syn::Declaration::cast(target).map_or(false, |d| d.has_bindings()) {
+                        out.insert("applies-imported-function");
+                    }
+                }
+            } else if let Some(op) = syn::VariadicOp::cast(node) {
+                match op.operator() {
+                    VariadicOperator::Range => out.insert("range-op"),
+                    VariadicOperator::Any => out.insert("any-op"),
+                    _ => out.insert("sum-or-join-op"),
+                };
+            } else if let Some(meta) = syn::ContentMeta::cast(node) {
+                if meta.kind() == syn::ContentTagKind::Headers {
+                    out.insert("has-headers");
+                }
+            } else if syn::Recursion::cast(node).is_some() {
+                out.insert("has-recursion");
+            } else if syn::Declaration::cast(node).is_some() {
+                if node.syntax().has_core() && node.syntax().core_ref().is_recursive {
+                    out.insert("has-recursion");
+                }
+            } else if syn::Import::cast(node).is_some() {
+                out.insert("has-import");
+            }
+        }
+    }
+    out.into_iter().map(|s| s.to_owned()).collect()
+}
+
+/// Checks that a span lies within its module's text on character boundaries
+/// (at most one position past the end for end-of-input).
+pub fn span_ok(sources: &Sources, span: &Span) -> Result<(), String> {
+    let name = name_of(span.locator());
+    let Some(text) = sources.files.get(&name) else {
+        return Err(format!("span {span} points to a module that is not part of the program"));
+    };
+    let (a, b) = (span.start(), span.end());
+    if a > b {
+        return Err(format!("span {span}: start > end"));
+    }
+    let eoi = a == text.len() && b == text.len() + 1;
+    if !eoi {
+        if b > text.len() {
+            return Err(format!("span {span} ends past the text (len {})", text.len()));
+        }
+        if !text.is_char_boundary(a) || !text.is_char_boundary(b) {
+            return Err(format!("span {span} is not on character boundaries"));
+        }
+    }
+    Ok(())
+}
